@@ -84,7 +84,9 @@ def run_case(case):
         vals = [row_value(s) for s in init["strings"]]
         maxlen = max([len(c) for _, c in vals], default=0)
         width = init["width"] if init.get("width") is not None else maxlen
-        a, e = call(lambda: fsarray([v for v, _ in vals], init.get("width"), *pos_args, **fmt))
+        seq_kind = len(vals) % 3  # list / tuple / one-shot generator of strings
+        strings_arg = [v for v, _ in vals] if seq_kind == 0 else tuple(v for v, _ in vals) if seq_kind == 1 else (v for v, _ in vals)
+        a, e = call(lambda: fsarray(strings_arg, init.get("width"), *pos_args, **fmt) if len(vals) % 2 or pos_args else fsarray(strings_arg, width=init.get("width"), **fmt))
         res.label("fsarray_ctor")
         if init.get("width") is not None and maxlen > init["width"]:
             res.label("fsarray_too_narrow")
@@ -136,6 +138,8 @@ def run_case(case):
                     # an FSArray block's rows are not padded: rows keep their own length
                 else:
                     block = [v for v, _ in vals]
+                    if op.get("as") == "tuple":
+                        block = tuple(block)
             rw, rh = c1 - c0, r1 - r0
             before, _ = observe(a)
             h_before = len(before)
@@ -344,7 +348,7 @@ def history(draw):
             for _ in range(nrows):
                 ln = draw(st.sampled_from([rw, rw, rw, max(rw - 1, 0), 0, rw + 1, rw + 2, max(rw - 2, 0)]))
                 block.append(draw(rowspec(ln)))
-            ops.append({"op": "set", "r0": r0, "r1": r1, "c0": c0, "c1": c1, "block": block, "as": draw(st.sampled_from(["list", "list", "fsarray"])),
+            ops.append({"op": "set", "r0": r0, "r1": r1, "c0": c0, "c1": c1, "block": block, "as": draw(st.sampled_from(["list", "list", "fsarray", "tuple"])),
                         "rows_only": draw(st.booleans())})
             h = max(h, r1)
         elif k == 6:
